@@ -28,6 +28,9 @@ FLOORS = {
 BUDGET = {'quick': 6000, 'thorough': 150000}
 SEPS = (' ', '\n', '\n\n', '\t', '\r\n', '  \n  ')
 FAULTS = ('type', 'sanity-ref', 'sanity-dup', 'dup-key', 'unknown-key', 'trailing-annotation', 'syntax', 'empty')
+EXPECTED_CLASS = {'type': 'TypeError', 'sanity-ref': 'HplSanityError', 'sanity-dup': 'HplSanityError',
+                  'dup-key': 'HplSyntaxError', 'unknown-key': 'HplSyntaxError', 'trailing-annotation': 'HplSyntaxError',
+                  'syntax': 'HplSyntaxError'}
 
 
 def ending(p):
@@ -190,8 +193,13 @@ def run(ctx):
             if i % 50 == 1:
                 ctx.sample({'file': text[:400], 'fault': fault, 'alone': hplapi.exc_class(alone),
                             'file_outcome': hplapi.exc_class(o)})
-            if alone[0] == 'ok':
-                ctx.skip('faulty-member-accepted-alone:' + fault)
+            want = EXPECTED_CLASS[fault]
+            if fault == 'syntax' and hplapi.exc_class(alone) in ('TypeError', 'HplSanityError'):
+                # a type/sanity error in the well-formed prefix is raised before the parser reaches the bad token
+                want = hplapi.exc_class(alone)
+            if hplapi.exc_class(alone) != want:
+                ctx.violation('invalid-member-outcome', {'member': bad_text, 'fault': fault, 'expected': want,
+                                                         'observed': hplapi.exc_class(alone)}, feats)
                 continue
             if o[0] == 'ok':
                 ctx.violation('spec-accepted-invalid', {'file': text, 'fault': fault,
